@@ -18,7 +18,7 @@ RULE = (
     "name-list of arbitrary comma-free names incl. non-ASCII code points of UTF-8 width 2/3/4 (byte length != "
     "code-point length), mpint dense at 0, +-1, +-2^(8k)-1, +-2^(8k), +-2^(8k-1) up to 4096 bits) with interleaved "
     "so_far/remainder/rewind probes; non-trivial = >=2 fields and at least one mpint or adaptive int >= 0xFF000000 "
-    "or a field whose value sits on a sign/byte boundary; distinct by SHA-1 of the field list"
+    "or a field whose value sits on a sign/byte boundary or a name-list with a non-ASCII name; distinct by SHA-1 of the field list"
 )
 
 
@@ -107,7 +107,9 @@ def execute(ctx, case):
     fields, probes = case
     fields = [(k, v) for k, v in fields]
     nontrivial = len(fields) >= 2 and any(
-        (k == "mpint") or (k == "aint" and v >= 0xFF000000) or (k in ("u32", "u64") and _on_boundary(v)) for k, v in fields
+        (k == "mpint") or (k == "aint" and v >= 0xFF000000) or (k in ("u32", "u64") and _on_boundary(v))
+        or (k == "list" and any(ord(ch) > 127 for n in v for ch in n))
+        for k, v in fields
     )
     classes = sorted(set(k for k, _ in fields))
     for k, v in fields:
